@@ -199,7 +199,7 @@ Proof.
 Qed.
 
 (* stringConcatSimplify has no purity filter: the glue moves in front of the second element *)
-Theorem string_concat_simplify_refuted :
+Theorem string_concat_simplify_prefix_refuted :
   exists en x y g, env_ok en /\ typeof (rw_lhs (rw_join_glue x y g)) = Some TString /\
     eval en (rw_lhs (rw_join_glue x y g)) = Some (RVal (VStr "a-b"), [Ev "f" [] (VStr "a"); Ev "g" [] (VStr "b"); Ev "h" [] (VStr "-")]) /\
     eval en (rw_rhs (rw_join_glue x y g)) = Some (RVal (VStr "a-b"), [Ev "f" [] (VStr "a"); Ev "h" [] (VStr "-"); Ev "g" [] (VStr "b")]).
